@@ -57,7 +57,8 @@ def ir_flow(prop, tier, seed, descs, own, models, level_note_assumptions, t0, ha
     wd = V.workdir(prop)
     # an integer outside TLC's 32-bit range in a trace can only be garbage produced by the code under test (vh.h writes a sentinel and an
     # OutOfRange row): whichever property is being checked cannot hold on that execution
-    own = list(own) + ["OutOfRange"]
+    # ... and a crash of the process (signal, failed assertion, std::terminate: rule Abort) is never compatible with any property
+    own = list(own) + ["OutOfRange", "Abort"]
     stages = [dict(descs=descs, trace_module=trace_module, trace_cfg=trace_cfg, driver_of=driver_of or P.driver_of)] + (extra_stages or [])
     # ---- design models first (cheap): the specification itself satisfies the property for small constants
     mres = []
@@ -240,8 +241,9 @@ def check_C05(tier, seed, t0):
 
 # rules of the public-level contract (spec/IRPublic.tla), judged by TraceIR from the harness lines alone
 PUB = ["PubInit", "PubCompute", "PubI:*"]
-HERM_NUM = ["Genuine", "UnitNorm", "Orthonormal", "ConvGenuine", "ConvCount", "I:ReturnedAreFresh", "AllFinite"]
-GEN_NUM = ["Genuine", "UnitNorm", "InSpectrumOfA", "Distinct", "ConvGenuine", "ConvCount", "I:ReturnedAreFresh", "AllFinite"]
+# (PUB: whatever is handed back as converged after ANY call must be genuine - after an init() nothing is handed back at all)
+HERM_NUM = ["Genuine", "UnitNorm", "Orthonormal", "ConvGenuine", "ConvCount", "I:ReturnedAreFresh", "AllFinite"] + PUB
+GEN_NUM = ["Genuine", "UnitNorm", "InSpectrumOfA", "Distinct", "ConvGenuine", "ConvCount", "I:ReturnedAreFresh", "AllFinite"] + PUB
 KRY = ["FacShape", "FacFinite", "KrylovAV", "KrylovVV", "KrylovVf", "KrylovBeta", "KrylovRealH", "Hessenberg", "TridiagonalSymmetric", "KAdvertised",
        "ExpandBasisFailed", "ExpandSeed", "G:CompressH", "G:CompressV", "G:FacBegin", "G:FacStep", "G:FacDone", "G:FacInit", "G:ExpandBasis", "I:KInRange"]
 
@@ -369,6 +371,7 @@ def check_C13(tier, seed, t0):
     rng = random.Random(5000 + seed)
     descs = P.degenerate(rng, n_of(tier, 220, 4000), types=types_for(tier))
     descs += P.herm_basic(rng, n_of(tier, 30, 500), meas=0) + P.gen_basic(rng, n_of(tier, 30, 500), meas=0, ref=0)
+    descs += P.tie_descs(rng, n_of(tier, 60, 600), types=types_for(tier))
     models = [("MC_IR.tla", "IR_quick.cfg" if tier == "quick" else "IR_design.cfg", 8), ("MC_IR.tla", "IR_live.cfg", 4),
               ("MC_NevAdj.tla", "NevAdj_quick.cfg" if tier == "quick" else "NevAdj_full.cfg", 8)]
     neg = [("MC_NevAdj.tla", "NevAdj_neg.cfg", 4)]
@@ -577,7 +580,7 @@ def check_C06(tier, seed, t0):
     if not ginfo["ok"]:
         raise V.Infra("MC_IRPubGen failed: %s" % ginfo.get("stdout_tail", ""))
     descs += P.pub_history_descs(rng, seqs, per_seq=1, types=types_for(tier))
-    own = ["SameKeySameDigest", "OperatorUnchanged", "I:InitMakesFresh", "PubInit", "PubI:InitMakesFresh"]
+    own = ["SameKeySameDigest", "OperatorUnchanged", "I:InitMakesFresh", "PubInit", "PubI:InitMakesFresh", "UsableAfterFault"]
     models = [("MC_IR.tla", "IR_quick.cfg" if tier == "quick" else "IR_design.cfg", 8), ("MC_IRPub.tla", "IRPub_quick.cfg", 8)]
     return ir_flow("C06", tier, seed, descs, own, models, COMMON_ASSUME + [
         "digests are 63-bit hashes of the bit patterns of all public results and counters; equal digests are taken as bit-identical results"], t0,
@@ -591,7 +594,7 @@ def check_C14(tier, seed, t0):
     else:
         descs = P.fault_descs(rng, 60, types=types_for(tier), stride=1) + P.fault_descs(rng, 24, stride=1, pairs=True) + P.fault_descs(rng, 12, stride=5, rep=3) + P.fault_descs_extra(rng, False)
     own = ["SameException", "FaultCountMatches", "SameKeySameDigest", "G:OpThrows", "NoLeak", "I:InitMakesFresh", "OperatorUnchanged", "Abort",
-           "UndocumentedException", "HeapOverrun", "EndedMidCall"] + PUB
+           "UndocumentedException", "HeapOverrun", "EndedMidCall", "UsableAfterFault"] + PUB
     models = [("MC_IR.tla", "IR_quick.cfg" if tier == "quick" else "IR_design.cfg", 8)]
     return ir_flow("C14", tier, seed, descs, own, models, COMMON_ASSUME + [
         "fault positions: every application index of the fault-free run (thorough) or every 3rd/7th with a random offset (quick)"], t0,
